@@ -18,6 +18,8 @@ ENCODED = [
     "tdgl.solver.solver:TDGLSolver.__init__",
     "tdgl.solver.solver:TDGLSolver.update",
     "tdgl.solver.solver:TDGLSolver.adaptive_euler_step",
+    "tdgl.solver.solver:TDGLSolver.solve",
+    "tdgl.solver.runner:Runner.run",
 ]
 BOUNDS = {
     "quick": dict(windows=[1, 2], max_retries=[0, 1], structure="one inductive step from an arbitrary solver state + a 4-step run (W=1)"),
@@ -35,6 +37,11 @@ MAX_PATHS = {"quick": 3000, "thorough": 20000}
 
 
 def patch_spec(case):
+    if case.params.get("mode") == "initial":
+        from . import C11
+
+        spec = C11.patch_spec(case)
+        return spec
     return S.patch_spec(extra_modules=["tdgl.solver.options"])
 
 
@@ -51,10 +58,59 @@ def cases(tier, seed):
     if tier == "thorough":
         out.append(Case("run:W=1:R=0", W=1, R=0, adaptive=True, seed=seed, mode="run"))
     out.append(Case("fixed-step:R=1", W=1, R=1, adaptive=False, seed=seed, mode="run"))
+    for adaptive in (True, False):
+        for seeded in (False, True):
+            out.append(Case(f"first-step:adaptive={int(adaptive)}:seeded={int(seeded)}", W=2, R=1, adaptive=adaptive, seeded=seeded, seed=seed, mode="initial"))
     return out
 
 
+def body_initial(H, case):
+    """The state a run starts from: whatever the seed solution went through, the first step of `solve()` is
+    proposed with dt_init and an empty window history (real `solve`, opaque `update`)."""
+    from tdgl.solution.data import TDGLData
+
+    dev = S.symbolic_device(H, "bar0", case.seed, symbolic_mesh=False)
+    ns, ne = len(dev.mesh.sites), len(dev.mesh.edge_mesh.edges)
+    dt_init = H.real("dt_init", lo=1e-6, hi=1.0)
+    dt_max = H.real("dt_max", lo=1e-6, hi=1.0)
+    H.assume(dt_init <= dt_max)
+    opts = S.make_options(solve_time=0.5, dt_init=dt_init, dt_max=dt_max, adaptive=case.adaptive, adaptive_window=case.W, output_file=None)
+    solver = S.make_solver(H, dev, opts, validate=False)
+    if case.seeded:
+        from types import SimpleNamespace
+
+        seed_dt = H.real("seed_dt", lo=0.0, hi=2.0, lo_open=True)
+        seed_time = H.real("seed_time", lo=0.0, hi=100.0)
+        data = TDGLData(step=7, epsilon=None, psi=H.cplxs("sp", ns), mu=H.reals("sm", ns), applied_vector_potential=None,
+                        induced_vector_potential=H.reals2("sA", ne, 2), supercurrent=H.reals("sjs", ne), normal_current=H.reals("sjn", ne),
+                        state={"step": 7, "time": seed_time, "dt": seed_dt, "timestamp": "2026-01-01 00:00:00"})
+        solver.seed_solution = SimpleNamespace(device=dev, tdgl_data=data, options=opts)
+    got = {}
+
+    class Stop(Exception):
+        pass
+
+    def update(state, running_state, dt, **kw):
+        got.update(state=dict(state), dt=dt, proposal=solver.tentative_dt, hist=list(solver.d_psi_sq_vals))
+        raise Stop()
+
+    solver.update = update
+    try:
+        solver.solve()
+    except Stop:
+        pass
+    H.prove("the update function was reached", bool(got))
+    if not got:
+        return
+    H.prove_eq("the first step of a run is proposed with dt_init", got["proposal"], dt_init)
+    H.prove_eq("the runner hands dt_init to the first update", got["dt"], dt_init)
+    H.prove("the run starts at step 0, time 0", got["state"]["step"] == 0 and float(got["state"]["time"]) == 0.0)
+    H.prove("the window history of |psi|^2 changes starts empty", len(got["hist"]) == 0)
+
+
 def body(H, case):
+    if case.mode == "initial":
+        return body_initial(H, case)
     W, R = case.W, case.R
     nsteps = W + 3
     dev = S.symbolic_device(H, "bar0", case.seed, symbolic_mesh=False)
